@@ -25,7 +25,10 @@ fn build_node(
         spec::Node::Int { min, max, .. } => build_int(json_val, min, max, path),
         spec::Node::Bool { .. } => build_bool(json_val, path),
         spec::Node::Sub { map: ref spec_map } => build_sub(json_val, spec_map, path),
-        spec::Node::Array { ref value_type, .. } => build_array(json_val, value_type, path),
+        spec::Node::Array {
+            ref value_type,
+            size,
+        } => build_array(json_val, value_type, size, path),
         spec::Node::AnonMap { ref value_type, .. } => build_anon_map(json_val, value_type, path),
         spec::Node::Variant {
             map: ref spec_map, ..
@@ -165,6 +168,7 @@ fn build_sub(
 fn build_array(
     json_val: &serde_json::Value,
     spec_node: &spec::Node,
+    size: usize,
     path: &[&str],
 ) -> Result<Node, Error> {
     match json_val {
@@ -176,6 +180,14 @@ fn build_array(
                 let path_of_sub = [path, &[&path_item]].concat();
                 let value = build_node(json_value, spec_node, &path_of_sub)?;
                 elements.push(Box::new(value));
+            }
+
+            if elements.len() != size {
+                return Err(Error::WrongArrayLength {
+                    path_hint: format_path(path),
+                    expected: size,
+                    found: elements.len(),
+                });
             }
 
             Ok(Node::Array(elements))
